@@ -1,6 +1,6 @@
 """C10 Byte encodings round-trip and match the documented layouts: writer / reader / documentation agreement."""
 import re
-from ..symex import Engine, show, subterms, contains, fold_bin, mk_slice
+from ..symex import Engine, show, subterms, contains, fold_bin, mk_slice, known_ok
 from ..lib import *
 from ..facts import MissingAnchor
 
@@ -13,7 +13,7 @@ INFO = {
                    "Fr::from(BigUint::from_bytes_le(in[0..32])) and the 8-byte one is usize::to_le_bytes zero-padded / u64::from_le_bytes; no "
                    "big-endian constructor is reachable from any codec; deserialize_witness returns Ok only when len == bytes consumed "
                    "(missing/trailing bytes clause); the JSON witness uses the same compression mode in both directions. Layout table "
-                   "transcribed from the doc comments of rln/src/protocol.rs and rln/src/public.rs. R10-5 whole-message I/O: no function of rln::public / protocol / utils / hashers calls Read::read or Write::write (partial transfer); inventory over the MIR call terminators.",
+                   "transcribed from the doc comments of rln/src/protocol.rs and rln/src/public.rs. R10-5 whole-message I/O: no function of rln::public / protocol / utils / hashers calls Read::read or Write::write (partial transfer); inventory over the MIR call terminators. R10-6 no over-rejection: every length guard of a decoder (request, witness, vector and verification readers and the helpers they call) rejects only inputs on which a later read would be out of bounds (decided with the linear facts of the obligation engine; loop reads are instantiated at the last iteration).",
     "not_decided": "value-level losslessness rests on the opaque BigUint/Fr conversions and Vec::resize; ark's own Vec<usize> compressed format",
     "assumptions": ["BigUint::to_bytes_le/from_bytes_le, Vec::resize, usize::to_le_bytes, u64::from_le_bytes have their documented meaning"],
 }
@@ -105,6 +105,101 @@ def whole_io(ctx, fb, cfg):
     ctx.floor("io-calls[%s]" % cfg, n, 40 if cfg != "stateless" else 20)
 
 
+DECODERS = ["rln::protocol::proof_inputs_to_rln_witness", "rln::protocol::deserialize_witness", "rln::utils::bytes_le_to_vec_fr", "rln::utils::bytes_le_to_vec_u8",
+            "rln::utils::bytes_le_to_vec_usize", "rln::public::RLN::verify", "rln::public::RLN::verify_rln_proof", "rln::public::RLN::verify_with_roots",
+            "rln::public::RLN::recover_id_secret"]
+
+
+def no_over_rejection(ctx, fb, cfg):
+    """R10-6: a length guard of a decoder may reject only inputs that are too short for what is read next. For every path that returns
+    Err right after a comparison on the input's length, some read on the accepting continuation (a slice or index obligation) must be
+    out of bounds under that comparison; otherwise the guard also rejects a well-formed encoding (e.g. the one with an empty signal)"""
+    from .. import panics
+    from ..symex import TooComplex
+    old_fb = panics.FB
+    panics.FB = fb
+    n = 0
+    try:
+        todo = [fb.items[d] for d in DECODERS if d in fb.items]
+        seen = set()
+        while todo:
+            it = todo.pop()
+            if it.path in seen:
+                continue
+            seen.add(it.path)
+            eng = Engine(fb, inline=opaque_rx(r"ZerokitMerkleTree>::|ZerokitMerkleProof>::"), max_depth=6)
+            try:
+                paths = eng.run(it)
+            except TooComplex:
+                continue
+            # repository callees that were not inlined are decoders in their own right
+            for p in paths:
+                for e in p.trace:
+                    if e[0] == "call":
+                        t = fb.lookup(e[1].split("@")[0])
+                        if t is not None and t.kind in ("Fn", "AssocFn") and t.file in IO_FILES and t.path not in seen:
+                            todo.append(t)
+            ind = panics.induction_vars(paths)
+            for p in paths:
+                if p.kind != "return" or known_ok(eng.value_of(p.store, p.ret)) is not False:
+                    continue
+                conds = [(j, e) for j, e in enumerate(p.trace) if e[0] == "cond"]
+                if not conds:
+                    continue
+                j, ce = conds[-1]
+                a, v = ce[1], ce[2]
+                if not length_guard(a, v):
+                    continue
+                # anything between the guard and the return other than building the error?
+                if any(e[0] in ("oblig", "write") for e in p.trace[j + 1:]):
+                    continue
+                n += 1
+                f = panics.facts_with_induction(p.trace, j, ind)
+                f.add_cond(a, v)
+                # unsigned arithmetic: quotients and lengths in the guard are non-negative
+                for t in subterms(a[1]):
+                    if isinstance(t, tuple) and t and ((t[0] == "bin" and t[1] in ("Div", "Rem")) or t[0] == "len"):
+                        f._add("<=", mk_const("usize", 0), t)
+                justified = False
+                later = 0
+                for q in paths:
+                    if q is p or len(q.trace) <= j or q.trace[:j] != p.trace[:j]:
+                        continue
+                    qe = q.trace[j]
+                    if not (qe[0] == "cond" and qe[1] == a and qe[2] != v):
+                        continue
+                    for e in q.trace[j + 1:]:
+                        if e[0] == "oblig" and e[1] in ("SliceIndex", "ElemIndex", "BoundsCheck", "Overflow:Sub"):
+                            later += 1
+                            if panics.violated(e[1], e[2], f):
+                                justified = True
+                                break
+                            # a read inside `for i in lo..hi`: the last iteration (i = hi - 1) is the one a too-large count pushes out of bounds
+                            from ..symex import subst
+                            m = {}
+                            for t in set(x for o in e[2] if isinstance(o, tuple) for x in subterms(o)):
+                                rv_ = range_var(t)
+                                if rv_ is not None and f.lt(rv_[0], rv_[1]):
+                                    m[t] = fold_bin("Sub", rv_[1], mk_const("usize", 1))
+                            if m:
+                                ops2 = tuple(subst(o, m) if isinstance(o, tuple) else o for o in e[2])
+                                if panics.violated(e[1], ops2, f):
+                                    justified = True
+                                    break
+                    if justified:
+                        break
+                if later == 0:
+                    ctx.notes.append("%s: guard %s is followed only by opaque reads (not decided)" % (it.path, sh(a, 80)))
+                    continue
+                key = "%s|%s[%s]" % (it.path.split("::")[-1], sh(a[1], 70), cfg)
+                ctx.check(justified, "R10-6", "length guard " + key, "rejects only inputs on which a later read would be out of bounds",
+                          "%s returns Err under %s = %s although none of the %d reads on the accepting continuation would be out of bounds under that condition: "
+                          "a well-formed encoding of exactly that length (for instance one with an empty variable part) is rejected" % (it.path, sh(a[1], 100), v, later), loc(it, p.site))
+    finally:
+        panics.FB = old_fb
+    ctx.floor("length-guards[%s]" % cfg, n, 6)
+
+
 def run(ctx):
     cfgs = ["default"] if ctx.tier == "quick" else ["default", "stateless", "optimal"]
     ctx.prefetch(cfgs + ["fixtures"])
@@ -117,6 +212,8 @@ def run(ctx):
         identities(ctx, fb, cfg)
         json_codec(ctx, fb, cfg)
         whole_io(ctx, fb, cfg)
+        if cfg != "stateless":
+            no_over_rejection(ctx, fb, cfg)
         if cfg != "stateless":
             tree_exports(ctx, fb, cfg)
         from . import c04
